@@ -166,3 +166,29 @@ Proof.
     destruct (be32s l) as [r| | |] eqn:Hr; cbn [bind] in H; try discriminate.
     apply Ok_inj in H; subst b. apply bytes_ok_app. split; [apply be32_ok|now apply IH].
 Qed.
+
+(* ------------------------------------------------------------ reads in a laid-out buffer *)
+Lemma u8_at' data pre n post i :
+  data = pre ++ be8 n ++ post -> i = length pre -> 0 <= n < 256 -> u8 data i = Some n.
+Proof. intros -> -> H. now apply u8_at. Qed.
+Lemma u16_at' data pre n post i :
+  data = pre ++ be16 n ++ post -> i = length pre -> 0 <= n < 65536 -> u16 data i = Some n.
+Proof. intros -> -> H. now apply u16_at. Qed.
+Lemma u32_at' data pre n post i :
+  data = pre ++ be32 n ++ post -> i = length pre -> 0 <= n < 4294967296 -> u32 data i = Some n.
+Proof. intros -> -> H. now apply u32_at. Qed.
+Lemma u32s_at' data pre l b post i n :
+  data = pre ++ b ++ post -> be32s l = Ok b -> i = length pre -> n = length l -> u32s data i n = Some l.
+Proof. intros -> H -> ->. now apply u32s_be32s. Qed.
+Lemma slice_at' data pre mid post a b :
+  data = pre ++ mid ++ post -> a = length pre -> b = (length pre + length mid)%nat -> slice data a b = mid.
+Proof. intros -> -> ->. apply slice_app_mid. Qed.
+Lemma from_at' data pre post i : data = pre ++ post -> i = length pre -> from data i = post.
+Proof. intros -> ->. apply from_app. Qed.
+
+Lemma last_byte_snoc l x : last_byte (l ++ [x]) = Some x.
+Proof.
+  unfold last_byte. destruct (l ++ [x]) eqn:E; [now destruct l|]. rewrite <- E.
+  rewrite app_length. cbn [length]. replace (length l + 1 - 1)%nat with (length l) by lia.
+  rewrite nth_error_app2 by lia. now rewrite Nat.sub_diag.
+Qed.
